@@ -528,8 +528,48 @@ pub fn run_child(ctx: &mut Ctx) {
         mark("websocket", &rendered);
         let schema2 = schema.clone();
         let r = on_small_stack(move || {
-            let ws = WebSocket::new(schema2, stream::iter(frames), proto);
-            let out: Vec<WsMessage> = vcore::det::block_on(ws.take(64).collect::<Vec<_>>());
+            // Driven the way an executor drives a task: polled again right after every item, after `Pending` only
+            // when its waker was invoked. All frames are ready from the start, so a connection that goes to sleep
+            // unwoken while frames are unread has stopped making progress.
+            use std::sync::atomic::{AtomicBool, AtomicUsize, Ordering::SeqCst};
+            struct Flag(AtomicBool);
+            impl futures_util::task::ArcWake for Flag {
+                fn wake_by_ref(a: &std::sync::Arc<Self>) {
+                    a.0.store(true, SeqCst);
+                }
+            }
+            let total = frames.len();
+            let read = std::sync::Arc::new(AtomicUsize::new(0));
+            let read2 = read.clone();
+            let input = stream::iter(frames).inspect(move |_| {
+                read2.fetch_add(1, SeqCst);
+            });
+            let mut ws = Box::pin(WebSocket::new(schema2, input, proto));
+            let flag = std::sync::Arc::new(Flag(AtomicBool::new(false)));
+            let waker = futures_util::task::waker(flag.clone());
+            let mut cx = std::task::Context::from_waker(&waker);
+            let mut out: Vec<WsMessage> = vec![];
+            let mut spins = 0;
+            while out.len() < 64 {
+                match futures_util::Stream::poll_next(ws.as_mut(), &mut cx) {
+                    std::task::Poll::Ready(Some(m)) => out.push(m),
+                    std::task::Poll::Ready(None) => break,
+                    std::task::Poll::Pending => {
+                        if flag.0.swap(false, SeqCst) {
+                            spins += 1;
+                            if spins > 100_000 {
+                                return Err("the connection keeps waking itself without producing anything (100000 polls)".into());
+                            }
+                            continue;
+                        }
+                        let unread = total - read.load(SeqCst);
+                        if unread > 0 {
+                            return Err(format!("the connection is pending and nothing will wake it, with {} of {} client frames unread (lost wake-up: it stopped making progress)", unread, total));
+                        }
+                        break;
+                    }
+                }
+            }
             Ok(if out.iter().any(|m| matches!(m, WsMessage::Text(_))) { "answered".into() } else { "closed-or-silent".into() })
         });
         let fl = matches!(&r, Ok(c) if c == "answered");
